@@ -19,7 +19,8 @@ from typing import Any, Dict, List, Optional, Tuple
 from aas_core_codegen import main as cg_main
 
 PROPS = [("s", "str"), ("n", "int"), ("b", "bool"), ("os", "Optional[str]"), ("on", "Optional[int]"),
-         ("ls", "List[str]"), ("ols", "Optional[List[str]]"), ("e", "Color"), ("oe", "Optional[Color]")]
+         ("ls", "List[str]"), ("ols", "Optional[List[str]]"), ("e", "Color"), ("oe", "Optional[Color]"),
+         ("items", "List[Item]")]
 OPTIONALS = ["os", "on", "ols", "oe"]
 
 
@@ -28,8 +29,24 @@ class Color(enum.Enum):
     Green = "GREEN"
 
 
-VALUES = {"s": ["", "ab"], "n": [0, 3], "b": [True, False], "os": [None, "", "x"], "on": [None, 0, 2],
+def _item(value: Optional[int]) -> Any:
+    return types.SimpleNamespace(value=value)
+
+
+# index expressions over the loop variable ``i``; several of them differ only in where the brackets are
+INDEX_EXPRESSIONS = ["i", "i - 1", "len(self.items) - i", "len(self.items) - (i + 1)", "len(self.items) - i + 1",
+                     "len(self.items) - (i - 1)", "len(self.items) - i - 1", "(len(self.items) - i) - 1", "i - (1 - 1)",
+                     "i - 1 - 1"]
+
+VALUES = {"items": [[_item(1), _item(1), _item(None)], [_item(None), _item(2), _item(3), _item(None), _item(0)]],
+          "s": ["", "ab"], "n": [0, 3], "b": [True, False], "os": [None, "", "x"], "on": [None, 0, 2],
           "ls": [[], ["a", ""]], "ols": [None, [], ["a"]], "e": [Color.Red], "oe": [None, Color.Green]}
+
+
+def _show(v: Any) -> str:
+    if isinstance(v, list) and v and isinstance(v[0], types.SimpleNamespace):
+        return "[" + ", ".join(f"Item({x.value!r})" for x in v) + "]"
+    return repr(v)
 
 
 def candidates() -> List[str]:
@@ -66,6 +83,12 @@ def candidates() -> List[str]:
             "all(item is not None for item in self.ls)", "self.s and self.n", "self.os or self.s", "self.b or self.n",
             "len(self.ls) > 0 and self.ls[0] == self.s", "self.n + 1 > 0", "self.s + self.s == self.s",
             "self.n - self.on > 0", "not (self.on is not None) or self.n - self.on > 0"]
+    # narrowing one expression must not narrow another one: (self.items[E1].value is None) or (self.items[E2].value > 0)
+    for e1, e2 in itertools.product(INDEX_EXPRESSIONS, repeat=2):
+        out.append(f"all((self.items[{e1}].value is None) or (self.items[{e2}].value > 0) "
+                   f"for i in range(2, len(self.items)))")
+        out.append(f"all(not (self.items[{e1}].value is not None) or (self.items[{e2}].value > 0) "
+                   f"for i in range(2, len(self.items)))")
     seen = set()
     uniq = []
     for e in out:
@@ -77,7 +100,9 @@ def candidates() -> List[str]:
 
 def build_model(exprs: List[str]) -> Tuple[str, Dict[int, int]]:
     """The meta-model and, per line number of an invariant, the index of its expression."""
-    lines = ["class Color(Enum):", '    """Represent a color."""', "", '    Red = "RED"', '    Green = "GREEN"', "", ""]
+    lines = ["class Color(Enum):", '    """Represent a color."""', "", '    Red = "RED"', '    Green = "GREEN"', "", "",
+             "class Item(DBC):", '    """Represent an item."""', "", "    value: Optional[int]", '    """Value"""', "",
+             "    def __init__(self, value: Optional[int] = None) -> None:", "        self.value = value", "", ""]
     line_of: Dict[int, int] = {}
     for k, e in enumerate(exprs):
         lines.append(f'@invariant(lambda self: {e}, "Invariant {k}")')
@@ -148,7 +173,7 @@ def bounded(seed: int = 0, **_: Any) -> Dict[str, Any]:
     cases = 0
     for k in accepted:
         try:
-            f = eval("lambda self: " + exprs[k], {"Color": Color, "len": len, "all": all})  # noqa: S307
+            f = eval("lambda self: " + exprs[k], {"Color": Color, "len": len, "all": all, "range": range})  # noqa: S307
         except SyntaxError:
             continue
         for inst in instances:
@@ -158,7 +183,7 @@ def bounded(seed: int = 0, **_: Any) -> Dict[str, Any]:
             except IndexError:
                 continue
             except (TypeError, AttributeError) as e:
-                failures.append({"invariant": exprs[k], "instance": {n: repr(getattr(inst, n)) for n in names},
+                failures.append({"invariant": exprs[k], "instance": {n: _show(getattr(inst, n)) for n in names},
                                  "observed": f"accepted by the type inference, but evaluating it raises "
                                              f"{type(e).__name__}: {e}"})
                 break
@@ -171,6 +196,10 @@ def bounded(seed: int = 0, **_: Any) -> Dict[str, Any]:
     for f in failures:
         kind = re.sub(r"'[^']*'", "T", f["observed"].split("raises ")[-1] if "raises" in f["observed"] else "not a boolean")
         kind = re.sub(r"instances of \S+ and \S+", "instances of incompatible types", kind)
+        if "NoneType" in f["observed"] and "has no len()" not in f["observed"]:
+            # (len(x) of an Optional x is the recorded finding "arguments of calls are not checked")
+            # what the None-tracking of the inference exists to exclude: kept apart from operand-type sloppiness
+            kind = "None reached an operation: " + kind
         f["kind"] = kind
         by_kind.setdefault(kind, f)
     kinds = {k: sum(1 for f in failures if f.get("kind") == k) for k in by_kind}
